@@ -370,7 +370,7 @@ func (c08) Run(e *Env) {
 		el := time.Since(t0)
 		return (el/cfg.Flush+1)*cfg.Flush - el
 	}
-	nFlushes := e.Range(1, 4)
+	nFlushes := e.Range(1, 4*e.Depth())
 	id := 0
 	for fl := 0; fl < nFlushes; fl++ {
 		nd := e.Choose("dgrams-before-flush", 8)
